@@ -17,7 +17,7 @@ SCHED_TRUSTED = [
     "networkx.DiGraph primitives used by the verified functions (in_degree, out_degree, successors, predecessors, remove_node, remove_nodes_from, subgraph, copy, __len__, __iter__, __contains__, dfs_tree, ancestors, descendants) per pyvc/lib.py",
     "concurrent.futures.wait / asyncio.wait: return a partition (done, not_done) of the given set, done non-empty if the set is non-empty, not_done empty for ALL_COMPLETED",
     "ThreadPoolExecutor.submit / asyncio.ensure_future return a fresh future; Future.result() returns or re-raises the callable's exception",
-    "lemma L1 (a non-empty finite node set has a rank-minimal element) and L2 (reachability in successor- / predecessor-closed sub-graphs), Lean: lemmas/graph_lemmas.lean; L3 (a sum over a finite set does not depend on the enumeration order)",
+    "lemma L1 (a non-empty finite node set has a rank-minimal element) and L2 (reachability in successor- / predecessor-closed sub-graphs), machine-checked in lemmas/graph_lemmas.lean (Lean 4 + Mathlib, re-checked in the thorough tier; the transcription Lean statement -> SMT axiom instance is by hand); L3 (a sum over a finite set does not depend on the enumeration order)",
     "for-loop rule: a loop over n distinct elements runs n iterations, in an arbitrary order",
     "copy.copy / copy.deepcopy: equal, unshared; functools.reduce = left fold; pickle round trip",
 ]
